@@ -451,6 +451,17 @@ fn run_case_inner(line: &str) -> Option<String> {
             let f = mk_frame(parse_u16(a)?, parse_u8(ty)?, parse_hex(d)?)?;
             crate::iomock::io_write(&f, crate::iomock::parse_wevs(evs)?)
         }
+        ["serialts", wms, rms, m, "|", rest @ ..] => {
+            // timed exchange on a slow port: the first write call blocks wms ms, the first read call rms ms
+            let g: Vec<&[&str]> = rest.split(|t| *t == "|").collect();
+            if g.len() != 2 {
+                return None;
+            }
+            crate::iomock::PORT_LATENCY.with(|c| c.set((wms.parse().unwrap_or(0), rms.parse().unwrap_or(0))));
+            let r = crate::iomock::serial_case(true, &parse_msg(m)?, crate::iomock::parse_revs(g[0])?, crate::iomock::parse_wevs(g[1])?);
+            crate::iomock::PORT_LATENCY.with(|c| c.set((0, 0)));
+            r?
+        }
         [verb @ ("serial" | "serialt"), m, "|", rest @ ..] => {
             let g: Vec<&[&str]> = rest.split(|t| *t == "|").collect();
             if g.len() != 2 {
